@@ -47,6 +47,19 @@ def run(prop, tier, seed, t0, H):
             extra["restart_pairs"] = pstats
             c2, n2 = W.correspondence([w for p in pairs for w in p])
             corr += c2; compared += n2
+        if prop == "C08":
+            # the routing half at the storage level: the by-nostr-id index of BOTH backends under rotations onto
+            # fresh, old and foreign ids and rollbacks (correspondence with Model.Store + its own oracle)
+            from . import storeeng as S
+            rc = S.generate(seed, "C08route", 40 if tier == "quick" else 600, 45 if tier == "quick" else 70)
+            S.run(rc)
+            rcorr = S.correspondence(rc)
+            rf, rstats = S.oracle_c08_routing(rc)
+            for f in rf:
+                f["prop"] = "C08"; f["props"] = ["C08"]
+            ofails += rf
+            corr += rcorr; compared += sum(len(c["ops"]) for c in rc)
+            extra["routing_store_cases"] = {"cases": len(rc), **rstats}
         mine = [f for f in ofails if prop in f.get("props", [f["prop"]])]
         failures += mine + corr
         cmds = [c.split()[0] for w in worlds for c, _, _ in w.trace]
